@@ -369,6 +369,11 @@ func genSettleHist(r *Rng, i int, tier string) []string {
 	tx("tip a4 q%d %d", q, r.Range(1000, 1e6))
 	add("rep %s q%d %064x", target, q, r.Range(1, 1e9)) // both reports in one block: the reporting window may be a single block
 	tx("rep v1 q%d %064x", q, r.Range(1, 1e9))
+	if !directed && nv == 4 && r.Chance(1, 6) {
+		// double-sign evidence against v1 after the reports: slashed 5 %, tombstoned; the reports it backed stay disputable
+		add("blk 1000 dsign=v1")
+		add("blk 1000")
+	}
 	cat := 1 + r.Intn(3)
 	if directed {
 		cat = 2 // 5 % of v0's 1100 tokens: more than a3's small delegation can cover of its share, less than v1's group holds
